@@ -727,6 +727,159 @@ impl World {
         self.ctx_dropped = true;
     }
 
+    // ------------------------------------------------------------ session resumption (C17)
+
+    /// What a correct client must re-send when the session is resumed, per the model:
+    /// (is_pubrel, op index), PUBLISH entries in original PUBLISH order, PUBREL entries in original PUBREL order.
+    pub fn unfinished(&self) -> (Vec<usize>, Vec<usize>) {
+        let mut pubs: Vec<(usize, usize)> = Vec::new();
+        let mut rels: Vec<(usize, usize)> = Vec::new();
+        for (i, m) in self.m.iter().enumerate() {
+            if !m.kind.is_qos_pub() {
+                continue;
+            }
+            if let Some(w) = m.req_wire {
+                if !m.ack1 {
+                    pubs.push((w, i));
+                }
+            }
+            if m.kind == Kind::Pub2 && m.ack1 && m.ack1_ok && !m.ack2 {
+                if let Some(w) = m.rel_wire {
+                    rels.push((w, i));
+                }
+            }
+        }
+        pubs.sort();
+        rels.sort();
+        (pubs.into_iter().map(|x| x.1).collect(), rels.into_iter().map(|x| x.1).collect())
+    }
+
+    /// After run() ended on a lost connection: record the disconnection `secs_ago` seconds in the past (hook H1),
+    /// give the context a new transport, connect again (CONNACK session present) and run.
+    /// Compares what is written on the new connection, before any new request, with the model.
+    /// Returns true if the session was expected to be resumed (not expired).
+    pub fn resume(&mut self, secs_ago: u64, sei: Option<u32>, expect_expired: bool) -> bool {
+        let (pubs, rels) = self.unfinished();
+        self.sim.cmd(Cmd::MarkDisconnected(secs_ago));
+        self.sim.note(|| format!("hook H1: disconnected {secs_ago} s ago; session expiry interval {:?}", sei));
+        self.sim.new_transport();
+        let conn = ConnSpec { sei, client_id: Some("c".into()), ..Default::default() };
+        self.sim.cmd(Cmd::Connect(conn));
+        self.sim.settle();
+        self.sim.feed_packet(&SPacket::Connack { session_present: !expect_expired, reason: 0, props: vec![] });
+        self.sim.settle();
+        self.sim.parse_wire();
+        let after_connect = self.sim.wire.len();
+        if !matches!(self.sim.last_ctx_result("connect"), Some(CtxOut::Conn(ConnOut::Connack(_)))) {
+            self.viol(&["C17"], "C17/reconnect-failed".into(), format!("second connect() did not return ConnectRsp: {:?}", self.sim.last_ctx_result("connect")));
+            self.blind = true;
+            return false;
+        }
+        self.term = None;
+        self.term_checked = false;
+        self.disc_wire_idx = None;
+        self.sim.cmd(Cmd::Run);
+        self.sim.settle();
+        if !self.sim.panics.is_empty() {
+            self.check();
+            return false;
+        }
+        self.sim.parse_wire();
+        if let Some(e) = self.sim.wire_split_error.clone() {
+            self.viol(&["C17"], "C17/resent-bytes-unsplittable".into(), e);
+            self.blind = true;
+            return false;
+        }
+        let resent: Vec<WirePkt> = self.sim.wire[after_connect..].to_vec();
+        self.attributed = self.sim.wire.len();
+        // old wire indices are meaningless now
+        for m in self.m.iter_mut() {
+            m.req_wire = None;
+            m.rel_wire = None;
+        }
+        self.last_submit_step_on_wire = 0;
+        if expect_expired {
+            if !resent.is_empty() {
+                let what: Vec<String> = resent.iter().map(|w| w.pkt.as_ref().map(|p| p.brief()).unwrap_or_else(|e| format!("undecodable: {e}"))).collect();
+                self.viol(&["C17"], "C17/resent-although-session-expired".into(), format!("session expired (interval {:?}, disconnected {secs_ago} s ago) but the client re-sent {:?}", sei, what));
+            }
+            // abandoned operations must fail, not hang
+            for i in 0..self.m.len() {
+                if self.m[i].dropped || !self.m[i].submitted {
+                    continue;
+                }
+                if self.sim.ops[i].task.alive() && !self.sim.ops[i].held {
+                    self.viol(&["C17"], format!("C17/abandoned-op-hangs/{}", self.m[i].kind.name()), format!("op{i}: session expired, yet the abandoned {} future is still pending at quiescence", self.m[i].kind.name()));
+                } else if let Some(o) = &self.sim.ops[i].out {
+                    if self.m[i].expected.is_none() && o.is_ok() {
+                        self.viol(&["C17"], format!("C17/abandoned-op-succeeded/{}", self.m[i].kind.name()), format!("op{i}: completed Ok although its exchange was abandoned with the expired session"));
+                    }
+                }
+                self.m[i].dropped = true;
+                self.m[i].holds_slot = false;
+            }
+            self.inflight = 0;
+            self.wire_inflight = 0;
+            self.ids_outstanding.clear();
+            return false;
+        }
+        // not expired: PUBLISH entries (DUP=1, same id / topic / payload / qos) in original order, PUBREL entries in original order, nothing else
+        let mut want_pubs: VecDeque<usize> = pubs.iter().copied().collect();
+        let mut want_rels: VecDeque<usize> = rels.iter().copied().collect();
+        for (k, wp) in resent.iter().enumerate() {
+            let widx = after_connect + k;
+            match &wp.pkt {
+                Err(e) => {
+                    self.viol(&["C17"], "C17/resent-packet-malformed".into(), format!("re-sent packet rejected by the reference decoder: {e}; bytes {:02x?}", &wp.bytes[..wp.bytes.len().min(48)]));
+                }
+                Ok(CPacket::Publish(p)) => {
+                    let op = p.topic.strip_prefix("o/").and_then(|s| s.parse::<usize>().ok());
+                    match want_pubs.front().copied() {
+                        Some(i) if Some(i) == op => {
+                            want_pubs.pop_front();
+                            let want_q = if self.m[i].kind == Kind::Pub1 { 1 } else { 2 };
+                            if !p.dup {
+                                self.viol(&["C17"], "C17/resent-publish-without-dup".into(), format!("op{i}: re-sent PUBLISH has DUP=0"));
+                            }
+                            if p.id != self.m[i].pkt_id || p.qos != want_q || p.payload != format!("p{i}").into_bytes() || p.retain || !p.props.is_empty() {
+                                self.viol(&["C17"], "C17/resent-publish-differs".into(), format!("op{i}: re-sent {} differs from the original (id {:?}, qos {want_q})", CPacket::Publish(p.clone()).brief(), self.m[i].pkt_id));
+                            }
+                            self.m[i].req_wire = Some(widx);
+                        }
+                        _ => {
+                            let acked = op.filter(|i| *i < self.m.len()).map(|i| self.m[i].ack1).unwrap_or(false);
+                            self.viol(
+                                &["C17"],
+                                format!("C17/unexpected-resend/PUBLISH/{}", if acked { "already-acknowledged" } else { "out-of-order-or-unknown" }),
+                                format!("re-sent {} ; the model expects next PUBLISH for op {:?} (unfinished publishes {:?}, releases {:?})", CPacket::Publish(p.clone()).brief(), want_pubs.front(), pubs, rels),
+                            );
+                        }
+                    }
+                }
+                Ok(CPacket::Ack(a)) if a.kind == AckKind::Pubrel => match want_rels.front().copied() {
+                    Some(i) if self.m[i].pkt_id == Some(a.id) => {
+                        want_rels.pop_front();
+                        self.m[i].rel_wire = Some(widx);
+                        self.m[i].req_wire = Some(widx);
+                    }
+                    _ => {
+                        self.viol(&["C17"], "C17/unexpected-resend/PUBREL".into(), format!("re-sent PUBREL id {} ; the model expects next PUBREL for op {:?}", a.id, want_rels.front()));
+                    }
+                },
+                Ok(other) => {
+                    self.viol(&["C17"], format!("C17/unexpected-resend/{}", other.type_name()), format!("{} written on the resumed connection before any new request", other.brief()));
+                }
+            }
+        }
+        for i in want_pubs {
+            self.viol(&["C17"], format!("C17/not-resent/PUBLISH/{}", self.m[i].kind.name()), format!("op{i}: unacknowledged {} PUBLISH id {:?} was not re-sent on the resumed connection", self.m[i].kind.name(), self.m[i].pkt_id));
+        }
+        for i in want_rels {
+            self.viol(&["C17"], "C17/not-resent/PUBREL".into(), format!("op{i}: PUBREL id {:?} without PUBCOMP was not re-sent on the resumed connection", self.m[i].pkt_id));
+        }
+        true
+    }
+
     // ------------------------------------------------------------ checking
 
     pub fn settle(&mut self) {
